@@ -72,13 +72,17 @@ def run(tier, replay_path=None):
         for e in trees: exprmeth.annotate(e, rng, 0.8)
     cases = [{"id": i, "e": e} for i, e in enumerate(trees)]
     results = {}
-    flavours = [("base", "0")] + ([("paren", "1")] if tier == "thorough" and not replay_path else [])
+    # option-more-parentheses: the whole space in the thorough tier, a sample of it in the quick tier
+    paren_cases = cases if tier == "thorough" else sample(cases, 1500, rng)
+    flavours = [("base", "0", cases)] + ([("paren", "1", paren_cases)] if not replay_path else [])
+    if replay_path and any(r.get("flavour") == "paren" for r in json.load(open(replay_path))["records"]):
+        flavours = [("paren", "1", cases)]
     conn = mk_conn(rng)
     total = nontriv = drift = engine_checked = gaps = 0
     mv_set = set(json.dumps(m["e"], sort_keys=True) for m in mv)
     mv_confirmed = 0
-    for fl, mp in flavours:
-        recs, dt = replay("expr", cases, wd, flavour=fl, name="cases_" + fl)
+    for fl, mp, fcases in flavours:
+        recs, dt = replay("expr", fcases, wd, flavour=fl, name="cases_" + fl)
         verdicts, vt = validate("ExprTrace", recs, os.path.join(wd, "tv_" + fl), jvms=10, env={"MOREPAREN": mp})
         log("[C05] %s: replayed %d trees in %.1fs, validated in %.1fs" % (fl, len(recs), dt, vt))
         byid = {r["id"]: r for r in recs}
